@@ -19,6 +19,7 @@ import vcheck as V
 
 cp = progs.cp
 N_PROGRAMS = {"quick": 10, "thorough": 120}
+N_PROGRAMS_BY_PROP = {"C15": {"quick": 5, "thorough": 60}}
 
 
 # ------------------------------------------------- inputs: paths and filters
@@ -101,6 +102,16 @@ def m_configs(rnd, prog, prop, tier):
     """Configurations of one program: the three actions, every sort and
     reversal, filters keeping a strict subset of the arguments, --exact paths,
     ignore modes, one --bench run, and random ones from progs.gen_config."""
+    if prop == "C15":
+        # option resolution as written in the attributes (parsed by the macros): what the loop saw in
+        # test and bench mode, ignore modes, and run-time options on top (flag / variable / builder)
+        out = [base_cfg("test"), base_cfg("bench")]
+        c = base_cfg("test"); c["run_ignored"] = "yes"; c["argv"].append("--include-ignored"); out.append(c)
+        c = base_cfg("bench"); c["run_ignored"] = "only"; c["argv"].append("--ignored"); out.append(c)
+        flat = [p for p, a in case_paths(prog)]
+        for _ in range(3):
+            out.append(progs.gen_config(rnd, prog, action=rnd.choice(["test", "bench", "bench"]), paths=flat, nf=0))
+        return out
     out = [base_cfg("test"), base_cfg("list"), base_cfg("list_terse")]
     for attr in ("kind", "name", "location"):
         for rev in (False, True):
@@ -175,8 +186,8 @@ def m_configs(rnd, prog, prop, tier):
 # ---------------------------------------------------------------- execution
 
 def gen_batch(prop, tier, seed):
-    rnd = random.Random(seed * 7919 + (12 if prop == "C12" else 17))
-    n = N_PROGRAMS[tier]
+    rnd = random.Random(seed * 7919 + int(prop[1:]))
+    n = N_PROGRAMS_BY_PROP.get(prop, N_PROGRAMS)[tier]
     # binaries of all batches land in one target directory: crate names are unique per batch
     crate = lambda k: f"{prop.lower()}{tier[0]}_{k:03d}"
     programs = [mgen.gen_program(rnd, f"{prop}-m{k}", crate(k)) for k in range(n)]
@@ -303,6 +314,20 @@ def negative_controls(res, prop, recs):
             out[what] = {"got": r.get("violated"), "rules": [x for x in V.bad_rules(r["out"]) if x.startswith("C12:")]}
             if r.get("violated") != "C12Holds" or not out[what]["rules"]:
                 raise V.ToolError(f"negative control not caught: {what} ({r.get('violated')})")
+    elif prop == "C15":
+        base = next((r for r in recs if any(u.get("has_loop") for u in r["invokes"])), None)
+        if base is None:
+            raise V.ToolError("negative control: no run with a loop observation")
+        a = copy.deepcopy(base)
+        u = next(u for u in a["invokes"] if u.get("has_loop"))
+        u["loop"]["threads"] += 1
+        p = os.path.join(V.WORK, f"{prop}.macro.negctl.ndjson")
+        with open(p, "w") as f:
+            f.write(json.dumps(a) + "\n")
+        r = V.tlc_trace("RunnerTrace", f"RunnerTrace_{prop}", p)
+        out["observed thread count changed"] = {"got": r.get("violated"), "rules": [x for x in V.bad_rules(r["out"]) if x.startswith("C15:")]}
+        if r.get("violated") != "C15Holds":
+            raise V.ToolError(f"negative control not caught ({r.get('violated')})")
     else:
         cases = []
         for rec in recs:
